@@ -145,3 +145,35 @@ func c05DataDump(n *CandidateNode) string {
 	}
 	return vDump(n)
 }
+
+// VerifC10RealFilesBytes: VerifC10RealFiles with the finite list of texts replaced by EVERY pair of short YAML texts
+// (symbolic bytes, interpreted yaml.v3): what the shared evaluator, decoder and printer deliver for file one followed
+// by file two is what they deliver for file one alone followed by what they deliver for file two alone (documents,
+// leading content, file indices), in sequence mode and in eval-all mode.
+func VerifC10RealFilesBytes() {
+	alphabet := yamlAlphabets[0]
+	t0 := verifStr("file0", verifParam("len0", 2), alphabet)
+	t1 := verifStr("file1", verifParam("len1", 2), alphabet)
+	evalAll := verifChoice("evalAll", 2) == 1
+	both, okBoth := c10RunFiles([]string{t0, t1}, 0, evalAll)
+	first, okFirst := c10RunFiles([]string{t0}, 0, evalAll)
+	second, okSecond := c10RunFiles([]string{t1}, 1, evalAll)
+	mode := " mode=eval"
+	if evalAll {
+		mode = " mode=eval-all"
+	}
+	if !okFirst {
+		verifCover("C10/real-bytes/first-file-rejected")
+		return // the run stops at the first file
+	}
+	verifAssert(okBoth == okSecond, "C10/real-files-error-depends-on-neighbour-file"+mode)
+	if !okBoth || !okSecond {
+		return
+	}
+	got := strings.Join(both, "; ")
+	want := strings.Join(append(append([]string{}, first...), second...), "; ")
+	verifObserve("got", got)
+	verifObserve("want", want)
+	verifAssert(verifEqStr(got, want), "C10/file-result-depends-on-neighbour-file"+mode)
+	verifCover("C10/real-bytes/end")
+}
